@@ -389,6 +389,22 @@ def validate_before_decode(ctx):
             found="the over-long header is accepted" if not any(r is True for r in b_res) else "a well-formed header is rejected")
 
 
+def _helper_nodes(ctx, fi):
+    """The function's own node plus the nodes of the helpers it calls that the rules have never seen (their statements count as written
+    in the function, see Evaluator.is_new_helper)."""
+    from sa.absint import _known_functions
+    known = _known_functions()
+    out = [fi.node]
+    if known is None:
+        return out
+    called = {n.func.attr if isinstance(n.func, ast.Attribute) else n.func.id for n in ast.walk(fi.node)
+              if isinstance(n, ast.Call) and isinstance(n.func, (ast.Attribute, ast.Name))}
+    for g in ctx.repo.all_functions():
+        if g is not fi and g.name in called and g.fq not in known and g.module is fi.module:
+            out.append(g.node)
+    return out
+
+
 def _is_sharing_guard(ctx, fi) -> bool:
     """A function that walks list / mapping / tag containers and byte / text strings, remembers id() of each in an order-blind set
     and raises an allowed error when an identity is met again."""
@@ -424,7 +440,7 @@ def _is_sharing_guard(ctx, fi) -> bool:
                     and a_.targets[0].id == t.id]
             if len(defs) == 1:
                 yield from positive_tests(defs[0].value, has_else)
-    branch_tests = [c for n in ast.walk(node) if isinstance(n, ast.If) for c in positive_tests(n.test, bool(n.orelse))]
+    branch_tests = [c for hn in _helper_nodes(ctx, fi) for n in ast.walk(hn) if isinstance(n, ast.If) for c in positive_tests(n.test, bool(n.orelse))]
     for n in branch_tests:
         if isinstance(n, ast.Call) and isinstance(n.func, ast.Name) and n.func.id == "isinstance" and len(n.args) == 2:
             for x in ast.walk(n.args[1]):
@@ -468,7 +484,7 @@ def _refuses_snan(ctx, fi) -> bool:
                     if not any(isinstance(y, (ast.Continue, ast.Break, ast.Return)) for x in before for y in ast.walk(x)):
                         refused = True
     kinds = set()
-    for n in ast.walk(node):
+    for n in [x_ for hn in _helper_nodes(ctx, fi) for x_ in ast.walk(hn)]:
         if isinstance(n, ast.Call) and isinstance(n.func, ast.Name) and n.func.id == "isinstance" and len(n.args) == 2:
             for x in ast.walk(n.args[1]):
                 if isinstance(x, ast.Name):
